@@ -290,7 +290,7 @@ func callWithWatchdog(f func() error) (err error, hung bool, where string) {
 	select {
 	case err = <-done:
 		return err, false, ""
-	case <-time.After(8 * time.Second):
+	case <-time.After(20 * time.Second):
 	}
 	var seen []string
 	for i := 0; i < 3; i++ {
